@@ -36,9 +36,10 @@ ASSUMPTIONS = ["CPython semantics of str.split/find/endswith/startswith, text-mo
                "parsing of the stat record (comm between the parentheses, state letter) is C06's subject; here comm and the zombie flag are inputs"]
 EXHAUSTIVE = {
     "quick": "all 156 argv of <=3 args over {'', 'a', ' ', 'a b', 'a '}; all 117 titles of <=3 words over {'', 'a', 'b'} x {none, space, NUL}; "
-             "exe() fallback: 15 (cmdline()[0], kind on disk) pairs x {ENOENT, ESRCH, EACCES}",
+             "exe() fallback: 15 (cmdline()[0], kind on disk) pairs x {ENOENT, ESRCH, EACCES}; all 781 cmdline files of <=4 bytes over "
+             "{NUL, ' ', 'a', CR, LF} against the documented rule",
     "thorough": "all 156 argv of <=3 args over {'', 'a', ' ', 'a b', 'a '}; all 117 titles of <=3 words over {'', 'a', 'b'} x {none, space, NUL}; "
-                "all 3906 raw cmdline files of <=5 bytes over {NUL, ' ', 'a', CR, LF}; exe() fallback: 15 (cmdline()[0], kind on disk) pairs x "
+                "all 3906 cmdline files of <=5 bytes over {NUL, ' ', 'a', CR, LF} against the documented rule; exe() fallback: 15 (cmdline()[0], kind on disk) pairs x "
                 "{ENOENT, ESRCH, EACCES}",
 }
 PID = 4242
@@ -289,12 +290,26 @@ def gen_cases(rng, tier):
                 for t in ("none", "space", "nul"):
                     cases.append({"kind": "cmd", "cls": "exh-title-" + t, "cmd": {"form": "title", "parts": [h(p) for p in combo], "term": t},
                                   "zombie": False})
-    if tier == "thorough":
-        for k in range(6):
+    # every cmdline file of <= 4 (quick) / <= 5 (thorough) bytes over {NUL, ' ', 'a', CR, LF}: model, rule (C12_cmdline_total), code
+    if tier != "search":
+        for k in range(6 if tier == "thorough" else 5):
             for combo in itertools.product([0, 32, 97, 13, 10], repeat=k):
-                v = {"pdir": True, "stat": "S", "comm": h(b"p"), "cmdline": ["data", h(bytes(combo))], "environ": ["ENOENT"],
-                     "exe": ["ENOENT"], "cwd": ["ENOENT"], "paths": []}
-                cases.append({"kind": "view", "cls": "exh-cmdraw" if combo else "trivial", "steps": [{"view": v, "op": "cmdline"}]})
+                cases.append({"kind": "cmdbytes", "cls": "exh-cmdbytes" if combo else "trivial", "data": h(bytes(combo)), "zombie": False})
+    for _ in range(n):
+        k = rng.random()
+        if k < 0.5:
+            data = bytes(rng.choice(RAW_ALPHA) for _ in range(rng.randint(1, 12)))
+        else:   # mixed separators: NUL-separated arguments without the final NUL, titles with NULs inside, doubled terminators
+            data = rng.choice([b"\x00", b" ", b""]).join(_arg(rng) for _ in range(rng.randint(1, 4))) + rng.choice([b"", b" ", b"\x00", b"\x00\x00", b" \x00", b"\x00 "])
+        z = rng.random() < 0.1
+        cases.append({"kind": "cmdbytes", "cls": "cmdbytes" if data else "trivial", "data": h(data), "zombie": z})
+    for _ in range(n):
+        data = bytes(rng.choice(RAW_ALPHA + [61, 61, 0]) for _ in range(rng.randint(0, 14)))
+        cases.append({"kind": "envbytes", "cls": "envbytes" if data else "trivial", "data": h(data)})
+    for _ in range(n // 2):
+        cps = [rng.choice([0x41, 0x7f, 0x80, 0xe9, 0x7ff, 0x800, 0x20ac, 0xd7ff, 0xd800, 0xdbff, 0xdc00, 0xdc7f, 0xdc80, 0xdcff, 0xdd00,
+                           0xdfff, 0xe000, 0xffff, 0x10000, 0x1f600, 0x10ffff]) for _ in range(rng.randint(0, 5))]
+        cases.append({"kind": "uenc", "cls": "uenc" if cps else "trivial", "cps": cps})
     for _ in range(2 * n):
         cmd = _cmd(rng)
         z = rng.random() < 0.1
@@ -417,6 +432,8 @@ def _g_view(v):
                                                       _g_paths(v["paths"]))
 
 
+_BASE_VIEW = {"pdir": True, "comm": "78", "cmdline": ["data", ""], "environ": ["data", ""], "exe": ["ENOENT"],
+              "cwd": ["ENOENT"], "paths": [], "stat": "S"}
 OPS = {"name": "OpName", "exe": "OpExe", "cmdline": "OpCmdline", "environ": "OpEnviron", "cwd": "OpCwd"}
 
 
@@ -444,6 +461,12 @@ def coq_term(case):
         return "run_zombie %s %s %s" % (MODEL_CFG, G.by(unh(case["comm"])), G.bo(case["esrch"]))
     if k == "hist":
         return "run_hist %s %s" % (MODEL_CFG, _g_kproc(case["r"]))
+    if k == "cmdbytes":
+        return "run_cmd_bytes %s %s %s" % (MODEL_CFG, G.by(unh(case["data"])), G.bo(case["zombie"]))
+    if k == "envbytes":
+        return "run_env_bytes %s %s" % (MODEL_CFG, G.by(unh(case["data"])))
+    if k == "uenc":
+        return "run_uenc %s" % G.zs(case["cps"])
     if k == "gone":
         return "run_gone %s %s %s" % (MODEL_CFG, G.bo(case["denied"]), G.bo(case["esrch"]))
     raise ValueError(k)
@@ -473,8 +496,12 @@ def coq_struct(case, raw):
         return {"model": model, "spec": None, "aux": raw[1]}
     if k == "udec":
         return {"model": raw, "spec": None}
-    if k in ("zombie", "gone"):
+    if k in ("zombie", "gone", "cmdbytes"):
         return {"model": raw[0], "spec": raw[1]}
+    if k == "envbytes":
+        return {"model": _sort_dict(raw[0]), "spec": _sort_dict(raw[1])}
+    if k == "uenc":
+        return {"model": raw, "spec": None}
     if k == "hist":
         return {"printed": raw[0], "model": raw[1], "spec": raw[2], "aux": [raw[3]]}
     raise ValueError(k)
@@ -486,6 +513,14 @@ def finding_key(case, coq):
     cmdline/environ; 15-byte non-ASCII names not extended) were repaired in /repo (46827e5, 76627f6). Their inputs are in
     corpus/C12 and are judged like any other case, so a revert is reported as a VIOLATION."""
     return None
+
+
+def judge(case, coq, impl):
+    from pv.core import Verdict, default_judge
+    if case["kind"] == "envbytes" and not (isinstance(impl, dict) and impl.get("t") == "Val"):
+        # C12_environ_total: environ() never fails, whatever bytes the block holds
+        return Verdict("violation", "environ() failed on a byte block: %r" % (impl,))
+    return default_judge(None, case, coq, impl)
 
 
 # ------------------------------------------------------------------ implementation side
@@ -519,6 +554,10 @@ def _steps_of(case, coq):
         return [(_proc_view(case["r"], coq["printed"], None), "name", coq["aux"][0])]
     if k == "view":
         return [(s["view"], s["op"], a) for s, a in zip(case["steps"], coq["aux"])]
+    if k == "cmdbytes":
+        return [(dict(base, cmdline=["data", case["data"]], stat="Z" if case["zombie"] else "S"), "cmdline", None)]
+    if k == "envbytes":
+        return [(dict(base, environ=["data", case["data"]]), "environ", None)]
     if k == "zombie":
         w = ["ESRCH" if case["esrch"] else "ENOENT"]
         v = dict(base, stat="Z", comm=case["comm"], exe=w, cwd=w)
@@ -754,6 +793,11 @@ def impl_run(case, coq, env):
     from pv import fakeproc
     if case["kind"] == "udec":
         return [ord(ch) for ch in psutil._common.decode(unh(case["data"]))]
+    if case["kind"] == "uenc":
+        try:
+            return B("".join(chr(c) for c in case["cps"]).encode(psutil._common.ENCODING, psutil._common.ENCODING_ERRS))
+        except UnicodeEncodeError:
+            return None
     root = os.path.join(env["work"], "proc")
     fp = fakeproc.FakeProc(root)
     fakeproc.attach(psutil, root)
@@ -771,7 +815,7 @@ def impl_run(case, coq, env):
             res.append(K.unbase(_call(p, op)))
     finally:
         K.uninstall()
-    if case["kind"] in ("cmd", "env", "link", "name"):
+    if case["kind"] in ("cmd", "env", "link", "name", "cmdbytes", "envbytes"):
         return res[0]
     return res
 
